@@ -18,12 +18,13 @@ _SHARD = {}
 
 
 class Ob:
-    def __init__(self, fn, tier, timeout, shards, samples, note, symbolic, selectors, bounds, quick_shards, findings):
+    def __init__(self, fn, tier, timeout, shards, samples, note, symbolic, selectors, bounds, quick_shards, findings, thorough_timeout=None):
         self.fn = fn
         self.name = fn.__name__
         self.module = fn.__module__
         self.tier = tier
         self.timeout = timeout
+        self.thorough_timeout = thorough_timeout or timeout * 4
         self.shards = shards if shards is not None else [{}]
         self.quick_shards = quick_shards      # None = all shards in quick tier; else indices
         self.samples = samples or []
@@ -35,9 +36,9 @@ class Ob:
 
 
 def obligation(tier="quick", timeout=90, shards=None, samples=None, note="", symbolic=None, selectors=None,
-               bounds="", quick_shards=None, findings=None):
+               bounds="", quick_shards=None, findings=None, thorough_timeout=None):
     def deco(fn):
-        ob = Ob(fn, tier, timeout, shards, samples, note, symbolic, selectors, bounds, quick_shards, findings)
+        ob = Ob(fn, tier, timeout, shards, samples, note, symbolic, selectors, bounds, quick_shards, findings, thorough_timeout)
         _REG.setdefault(fn.__module__, []).append(ob)
         fn._vf_ob = ob
         return fn
